@@ -85,6 +85,7 @@ type VC struct {
 	assumedContracts map[string]bool
 	params []types.Object
 	origins map[int]originRec
+	preserved []preservedObj
 	strKeys map[int]*Term // content key of strings built by concatenation (by array-id term)
 	inlineMode bool
 	retCount int
@@ -697,4 +698,11 @@ func containsBranch(n ast.Node) bool {
 		return !found
 	})
 	return found
+}
+
+type preservedObj struct {
+	name string
+	elem types.Type
+	arr  *Term
+	idx  *Term
 }
